@@ -27,6 +27,20 @@ Theorem hash_part_at_least_32_bits : forall id, (8 <= length (hash_part sha256_h
 Proof. exact (hash_part_at_least_8 sha256_hex sha256_hex_len). Qed.
 Print Assumptions hash_part_at_least_32_bits.
 
+(*    SQLite refuses names that begin with "sqlite_".  Full strength: no id yields such a name. *)
+Definition names_never_reserved : Prop :=
+  forall id c t, In (c, t) vocab_pairs -> reserved_name (table_name sha256_hex id c t) = false.
+
+(*    It holds once the guard of proposed_fixes/C17-reserved-sqlite-prefix.diff is in the tree ... *)
+Theorem names_never_reserved_partial : reserved_rule_present = true -> names_never_reserved.
+Proof. exact never_reserved_fixed_pf. Qed.
+Print Assumptions names_never_reserved_partial.
+
+(*    ... and is refuted without it: the id "sqlite" names its tables sqlite_<hash>__... *)
+Theorem reserved_name_refuted : gen_reserved_guard = false -> ~ names_never_reserved.
+Proof. exact reserved_refuted_pf. Qed.
+Print Assumptions reserved_name_refuted.
+
 (* 2. The naming scheme parses uniquely: equal table names have equal sanitised text, equal hash
       digits, the same component and the same table. *)
 Theorem table_name_injective : forall a b ca ta cb tb,
